@@ -252,6 +252,51 @@ def run(chk, ctx) -> None:
                     ok = got == T.spec(f'{f_name} - {s_name}')
     from .helpers import no_format_specs
     no_format_specs(chk, ctx, 'C17.layout', [acpc, plur])
+    # every logged operation is rendered exactly once, starting with the first: the cursor starts at 0, advances by one per
+    # operation read, and runs to the end of the log of each replayed state
+    for fi in (acpc, plur):
+        opn = op_var(fi.node)
+        facts = {
+            'cursor starts at 0': bool(m.full_assigns(fi.node, 'index', '0')),
+            'runs to the end of the log': bool(m.ifs(fi.node, 'index < len(state.operations)')),
+            'reads the operation under the cursor': bool(m.full_assigns(fi.node, opn or 'operation', 'state.operations[index]')),
+            'advances by one': bool(m.augs(fi.node, ast.Add, 'index', '1')),
+            'over the replayed states of this history': bool(m.fors(fi.node, 'self')),
+        }
+        missing = [k for k, v in facts.items() if not v]
+        chk.ob('C17.layout', f'{fi.qualname}:cursor', not missing, fi.loc,
+               'the operations of the replay are rendered one by one, each exactly once, from the first', got=f'not found: {missing}' if missing else 'ok')
+        # the hand number: the argument, else the recorded integer hand number, else an error
+        hn = False
+        for n in m.ifs(fi.node, 'hand_number is None'):
+            inner = [x for x in n.body if isinstance(x, ast.If)]
+            hn = len(inner) == 1 and m.eq(T.cond(inner[0].test), 'self.hand is None or not isinstance(self.hand, int)', boolean=True, fn=fi.node) \
+                and any(isinstance(r, ast.Raise) for r in inner[0].body) and bool(m.full_assigns(n, 'hand_number', 'self.hand'))
+        chk.ob('C17.layout', f'{fi.qualname}:hand_number', hn, fi.loc,
+               'the hand number written is the one asked for, else the integer recorded in the history; without either the call is refused')
+    # Pluribus: seats are named from the history, else p1..pn; payoffs come from the recorded finishing stacks, else the replayed end
+    facts = {
+        'default names p1..pn': bool(m.exprs(plur.node, "[f'p{i + 1}' for i in range(len(self.starting_stacks))]")),
+        'recorded names': bool(m.assigns(plur.node, 'self.players')),
+        'finishing stacks of the replay': bool(m.exprs(plur.node, 'tuple(self)[-1].stacks')),
+        'recorded finishing stacks': bool(m.assigns(plur.node, 'self.finishing_stacks')),
+        'names joined by |': bool(m.exprs(plur.node, "'|'.join(raw_players)")),
+    }
+    missing = [k for k, v in facts.items() if not v]
+    chk.ob('C17.payoff', f'{plur.qualname}:sources', not missing, plur.loc,
+           'Pluribus line: player names from the history (default p1..pn), payoffs from the recorded or the replayed finishing stacks',
+           got=f'not found: {missing}' if missing else 'ok')
+    # the parser replays on its own copy of the game, in cash-game mode, with everything but dealing and betting automated
+    pc = prog.cls('ACPCProtocolParser')
+    pi = pc.methods.get('__post_init__')
+    ok = pi is not None and bool(m.full_assigns(pi.node, 'self.game', 'deepcopy(self.game)')) \
+        and bool(m.full_assigns(pi.node, 'self.game.automations', 'self.AUTOMATIONS')) and bool(m.full_assigns(pi.node, 'self.game.mode', 'Mode.CASH_GAME'))
+    order_ok = False
+    if pi is not None and ok:
+        lines = {ast.unparse(st.targets[0]): st.lineno for st in pi.node.body if isinstance(st, ast.Assign)}
+        order_ok = lines.get('self.game', 0) < min(lines.get('self.game.automations', 0), lines.get('self.game.mode', 0))
+    chk.ob('C17.gates', 'ACPCProtocolParser.__post_init__', ok and order_ok, pi.loc if pi else pc.loc,
+           'the parser configures a private copy of the game (copied first): cash-game mode and the protocol\'s automations')
     # the result field is the payoffs as they are (str of each number, joined by `|`): no rounding, no number formatting
     rendered = bool(m.exprs(plur.node, "'|'.join(map(str, raw_payoffs))")) or bool(m.exprs(plur.node, "'|'.join(str(payoff) for payoff in raw_payoffs)"))
     chk.ob('C17.payoff', f'{plur.qualname}:rendering', rendered, plur.loc,
